@@ -47,6 +47,7 @@ def run(chk, repo):
     chk.rule("C20-P3", "adapter blank semantics: blank integer -> -1, blank float -> NaN, blank text -> '', NUL padding -> b''", 4)
     chk.rule("C20-P4", "optional header attributes are dropped through the empty-list marker", 3)
     chk.attempt(blank_entries_kept, chk, repo)  # an evaluation on concrete columns: decided before (and whether or not) the symbolic inference below applies
+    chk.attempt(padding_content, chk, repo, L)  # decided on constant padding content, before the symbolic inference
     P = pipelines(repo, L)
     results = P.run()
     # ---------------------------------------------------------------- P1
@@ -520,6 +521,74 @@ def header_sentinels(chk, repo, L):
                         f"{f}: filled value {v!r} -> {plain(out.items.get(nullable[f][0])) if nullable[f][0] in out.items else 'missing'}"
                         f"{'' if others_absent else '; blank siblings surface: ' + str([g for g in nullable if g != f and not absent(out, g)])}: a present header value is dropped or altered",
                         key=f"header:{f}:filled:{v!r}")
+
+
+def padding_content(chk, repo, L):
+    """C20-P8: each transform pipeline is evaluated twice on its struct's own shape, the value fields symbolic as in the inference,
+    the spare / blank / reserved areas (1) holding what a space- or NUL-filled area decodes to and (2) each holding its own distinct
+    content of its class.  Whether the pipeline raises and what it returns must be the same in both runs: padding content that decides
+    an exception or changes the result is what the property excludes.  Nothing is said when both runs end the same way (the symbolic
+    inference decides the rest) or when a run cannot be evaluated"""
+    from ..schema import desc, flatten
+    from ..poly import Poly
+    from ..shapes import Const, DictS, Interp, Leaf, ListLit, ListOf, NonTermination, ShapeError, TupS, _Raise, shape_of_con
+    chk.rule("C20-P8", "whether a transform pipeline raises, and what it returns, does not depend on what the padding areas hold", 4)
+    pipes = [("leader", "ceos_alos2.sar_leader.metadata", "transform_metadata", "leader", False), ("volume", "ceos_alos2.volume_directory.metadata", "transform_record", "volume", False),
+             ("lines:signal", "ceos_alos2.sar_image.metadata", "transform_line_metadata", "signal", True), ("lines:processed", "ceos_alos2.sar_image.metadata", "transform_line_metadata", "processed", True),
+             ("header", "ceos_alos2.sar_image.metadata", "extract_attrs", "image_descriptor", False)]
+
+    def fill(v, distinct, counter, under=False):
+        if isinstance(v, DictS):
+            d = DictS()
+            for k, x in v.items.items():
+                d.items[k] = fill(x, distinct, counter, under or is_padding_name(str(k)))
+            d.optional = set(v.optional)
+            return d
+        if isinstance(v, ListOf):
+            return ListOf(fill(v.elem, distinct, counter, under), v.n, getattr(v, "maybe_empty", False))
+        if isinstance(v, TupS):
+            return TupS([fill(x, distinct, counter, under) for x in v.elts])
+        if isinstance(v, Leaf) and under and not v.ops and v.kind in ("str", "bytes"):
+            counter[0] += 1
+            text = f"PAD{counter[0]:03d}" if distinct else ""
+            return Const(text if v.kind == "str" else text.encode())
+        return v
+    n_done = 0
+    for pipe, modname, fname, key, many in pipes:
+        where = f"{repo.module(modname).relpath}:{fname}"
+        outcomes = []
+        n_areas = 0
+        for distinct in (False, True):
+            counter = [0]
+            try:
+                rec = fill(shape_of_con(L.con(key)), distinct, counter)
+                n_areas = counter[0]
+                arg = ListOf(rec, Poly.sym("n_lines")) if many else rec
+                I = Interp(repo, strict=False)
+                out = I.call(I.resolve_global(repo.module(modname), fname), [arg], {})
+                outcomes.append(("returns", dict(flatten(out)) if not isinstance(out, (Leaf, Const)) else {"/": desc(out)}))
+            except _Raise as e:
+                outcomes.append(("raises", e.what))
+            except (ShapeError, NonTermination, RecursionError, AnalysisError) as e:
+                outcomes.append(("undecided", str(e)))
+        if n_areas == 0 or any(o[0] == "undecided" for o in outcomes):
+            continue
+        n_done += 1
+        (k0, v0), (k1, v1) = outcomes
+        if k0 == "returns" and k1 == "raises":
+            chk.fail("C20-P8", where, f"{pipe}: with its {n_areas} padding areas blank the pipeline returns, with other content in them it raises ({v1[:90]}): padding content makes the open fail",
+                     key=f"{pipe}:padding-content:raises")
+        elif k0 == "raises" and k1 == "returns":
+            chk.fail("C20-P8", where, f"{pipe}: with its {n_areas} padding areas blank the pipeline raises ({v0[:90]}), with other content in them it returns: the outcome depends on padding content",
+                     key=f"{pipe}:padding-content:raises")
+        elif k0 == "returns" and v0 != v1:
+            diff = sorted(k for k in set(v0) | set(v1) if v0.get(k) != v1.get(k))
+            chk.fail("C20-P8", where, f"{pipe}: the result differs between blank and filled padding areas at {diff[:4]} (e.g. {str(v0.get(diff[0]))[:50]} / {str(v1.get(diff[0]))[:50]})",
+                     key=f"{pipe}:padding-content:{diff[0]}")
+        else:
+            chk.ok("C20-P8", where, f"{pipe}: {n_areas} padding areas blank / each with its own content: same outcome")
+    if n_done == 0:
+        raise AnalysisError("C20-P8: none of the transform pipelines could be evaluated with constant padding content")
 
 
 def blank_entries_kept(chk, repo):
